@@ -55,12 +55,14 @@ Check (C02_whole_message_parsed : forall msg nq an ns ar (qs : list squestion) (
     parsed msg nq an ns ar (qitems 12 qs qends) (ritems e1 rs rends) e1 e2 /\
     lenN (qitems 12 qs qends) = nq /\ lenN (ritems e1 rs rends) = an + ns + ar /\
     qstands msg 12 qs qends /\ rstands msg e1 rs rends).
-Check (C02_standing_record_decodes : forall msg p x e c,
-  record_stands msg p x e -> whole msg c -> pos c = a_type_off (ritem p x e) + 10 ->
+Check (C02_standing_record_decodes : forall msg p x e c a,
+  record_stands msg p x e -> sr_data x = SVal a -> whole msg c -> pos c = a_type_off (ritem p x e) + 10 ->
   exists m, read_rdata msg (sr_type x) (a_rdlen (ritem p x e)) = Some m /\
-            m c = (c_set_pos c e, Ok (rdata_val (sr_data x)))).
+            m c = (c_set_pos c e, Ok (rdata_val a))).
+Check (C02_standing_record_bytes : forall msg p x e, record_stands msg p x e ->
+  subN msg (a_type_off (ritem p x e) + 10) (a_rdlen (ritem p x e)) = sdata_enc (sr_data x)).
 Check (C02_whole_message_example : let q := mkSQ [(12, [x61])] 1 1 in
-  let x := mkSR [(12, [x61])] 1 1 60 (A_A 16909060) in
+  let x := mkSR [(12, [x61])] 1 1 60 (SVal (A_A 16909060)) in
   questions_stand example_msg 12 [q] 19 /\ records_stand example_msg 19 [x] 35 /\ lenN example_msg = 35).
 Check (C02_rdata_compressed_names : forall msg c p rd,
   cwf msg c -> orig c = None -> pos c = p -> p + rd <= lim c ->
@@ -81,4 +83,4 @@ Check (C02_rdata_compressed_names : forall msg c p rd,
 Check (C02_rdata_compressed_example : name_in example_cname_msg 35 31 [(31, [x62]); (12, [x61])] 35 /\
   exists m, read_rdata example_cname_msg T_CNAME 4 = Some m /\
             m (c_with_pos example_cname_msg 31) = (c_with_pos example_cname_msg 35, Ok (RD_Name T_CNAME [x62; x2e; x61; x2e]))).
-Print Assumptions C02_header_fields. Print Assumptions C02_flags. Print Assumptions C02_opt_fields. Print Assumptions C02_opt_do. Print Assumptions C02_a_record_roundtrip_plain. Print Assumptions C02_fixed_part_roundtrip. Print Assumptions C02_rdata_roundtrip_all_types. Print Assumptions C02_record_roundtrip. Print Assumptions C02_standing_items. Print Assumptions C02_whole_message_parsed. Print Assumptions C02_standing_record_decodes. Print Assumptions C02_whole_message_example. Print Assumptions C02_rdata_compressed_names. Print Assumptions C02_rdata_compressed_example.
+Print Assumptions C02_header_fields. Print Assumptions C02_flags. Print Assumptions C02_opt_fields. Print Assumptions C02_opt_do. Print Assumptions C02_a_record_roundtrip_plain. Print Assumptions C02_fixed_part_roundtrip. Print Assumptions C02_rdata_roundtrip_all_types. Print Assumptions C02_record_roundtrip. Print Assumptions C02_standing_items. Print Assumptions C02_whole_message_parsed. Print Assumptions C02_standing_record_decodes. Print Assumptions C02_standing_record_bytes. Print Assumptions C02_whole_message_example. Print Assumptions C02_rdata_compressed_names. Print Assumptions C02_rdata_compressed_example.
